@@ -8,8 +8,6 @@ variable {F : Type} [Scalar F]
 def fresh : TrueRange F := { prev_close := none }
 
 theorem new_eq : (new : TrueRange F) = fresh := rfl
-theorem default_eq : (default_ : TrueRange F) = fresh := rfl
-
 /-- scalar path: |x − previous x|, 0 first -/
 def out (s : TrueRange F) (x : F) : F :=
   match s.prev_close with
@@ -31,9 +29,5 @@ theorem nextBar_eq (s : TrueRange F) (b : Bar F) :
     s.nextBar b = some ({ prev_close := some b.close }, outBar s b) := by
   unfold nextBar outBar max3
   cases s.prev_close <;> rfl
-
-theorem reset_eq (s : TrueRange F) : s.reset = some fresh := rfl
-
-theorem display_eq (fmt : F → String) (s : TrueRange F) : display fmt s = "TRUE_RANGE()" := rfl
 
 end TaRs.Gen.TrueRange
